@@ -250,8 +250,10 @@ def record_r3(seed, count, nmax):
             for s in range(n):
                 for e in range(s + m, n + 1):
                     C[(s, e)] = float(np.sum(ref.evaluate(np.array([[s, e]]))))
-            det = PELT(cost=mk(), penalty_scale=scale, min_segment_length=m).fit(X)
-            cps = det.predict(X)["ilocs"].to_numpy()
+            # integer-valued data go to the detector as int64 half of the time (the table is recorded from the float copy)
+            Xin = X.astype(np.int64) if np.all(X == np.round(X)) and rng.integers(0, 2) else X
+            det = PELT(cost=mk(), penalty_scale=scale, min_segment_length=m).fit(Xin)
+            cps = det.predict(Xin)["ilocs"].to_numpy()
         except RuntimeError:
             continue  # documented error: slice covariance not positive definite
         scores = det.scores.to_numpy()
